@@ -342,7 +342,7 @@ _TIER = ["quick"]
 def gen(rng, tier):
     _TIER[0] = tier
     thorough = tier == "thorough"
-    reps = 4 if not thorough else 90
+    reps = 4 if not thorough else 120
     for rep in range(reps):
         for kern in VEC:
             for n in range(0, 71):
